@@ -130,7 +130,7 @@ def handle (j : Json) : R Json := do
     pure (Json.mkObj [("log", Json.arr (s.log.reverse.map jobs).toArray),
                       ("paired", Json.arr (s.paired.map fun (c, a) => Json.arr #[Json.num c, Json.bool a]).toArray),
                       ("pending", Json.num (s.execQ.length + s.loopQ.length)),
-                      ("adv_sf", Json.str (if s.advUnpaired then "1" else "0"))])
+                      ("adv_sf", jopt Json.str (advertisedSf (initialSf info paired) s.log))])
   | _ => throw s!"advert: unknown op {op}"
 
 end Hap.Drv.Advert
